@@ -8,4 +8,5 @@ GO=/root/go/pkg/mod/golang.org/toolchain@v0.0.1-go1.25.7.linux-amd64/bin/go
 [ -x "$GO" ] || GO=go
 mkdir -p ../.build ../evidence ../replays
 "$GO" test -c -tags verif -o ../.build/props.test ./props
+"$GO" test -c -race -tags verif -o ../.build/props-race.test ./props
 echo "setup ok: $($GO version)"
